@@ -184,8 +184,7 @@ Qed.
 Theorem rescale_to_mantissa_spec d decimals : valid d -> 0 <= decimals <= 255 ->
   rescale_to_mantissa d decimals =
     if (dm d =? 0) && (67 <=? decimals) then Err 1
-    else if in_s 128 (target d decimals) then Ok (target d decimals)
-    else if 31 <=? dsc (rescale d decimals) then Err E_PANIC else Err 1.
+    else if in_s 128 (target d decimals) then Ok (target d decimals) else Err 1.
 Proof.
   intros [Hm Hs] Hd. unfold rescale_to_mantissa, rescale, target.
   destruct (dsc d =? decimals) eqn:Eeq.
@@ -320,27 +319,13 @@ Proof.
   assert (2 ^ 96 < 10 ^ 27 * 10 ^ 2) by (vm_compute; reflexivity). nia.
 Qed.
 
-(* the backward direction panics exactly when the error message is formatted with a scale >= 31 *)
-Theorem back_panic_iff d decimals : valid d -> 0 <= decimals <= 255 ->
-  (rescale_to_mantissa d decimals = Err E_PANIC <->
-   dm d <> 0 /\ in_s 128 (target d decimals) = false /\ 31 <= dsc (rescale d decimals)).
+(* the backward direction never panics *)
+Theorem back_never_panics d decimals : valid d -> 0 <= decimals <= 255 ->
+  rescale_to_mantissa d decimals <> Err E_PANIC.
 Proof.
   intros Hv Hd. rewrite rescale_to_mantissa_spec by assumption.
-  destruct (dm d =? 0) eqn:Ez; [apply Z.eqb_eq in Ez | apply Z.eqb_neq in Ez]; cbn [andb].
-  - split; [|intros [A _]; contradiction].
-    destruct (67 <=? decimals); [discriminate|].
-    assert (Ht : target d decimals = 0).
-    { unfold target, half_up, mantissa. rewrite Ez.
-      replace (if dneg d then - 0 else 0) with 0 by (destruct (dneg d); reflexivity).
-      destruct (dsc d <=? decimals) eqn:El; [lia|]. apply Z.leb_gt in El. cbn [Z.abs Z.ltb Z.compare].
-      rewrite Z.div_0_l, Z.mod_0_l by (apply Z.pow_nonzero; lia).
-      pose proof (pow10_pos (dsc d - decimals) ltac:(lia)).
-      replace (10 ^ (dsc d - decimals) <=? 2 * 0) with false by (symmetry; apply Z.leb_gt; lia). reflexivity. }
-    rewrite Ht. change (in_s 128 0) with true. discriminate.
-  - destruct (in_s 128 (target d decimals)); [split; [discriminate | intros [_ [A _]]; discriminate]|].
-    destruct (31 <=? dsc (rescale d decimals)) eqn:E; [apply Z.leb_le in E | apply Z.leb_gt in E].
-    + split; auto.
-    + split; [discriminate | intros [_ [_ A]]; lia].
+  destruct ((dm d =? 0) && (67 <=? decimals)); [discriminate|].
+  destruct (in_s 128 (target d decimals)); discriminate.
 Qed.
 
 (* the scale [rescale] reaches when scaling up: as many multiplications by ten as fit 96 bits *)
@@ -400,7 +385,7 @@ Qed.
 Lemma ufixed_large a D : MAX_REPR < a < 2 ^ 128 -> 0 <= D ->
   unsigned_fixed_to_decimal a D =
     if D <? lost a then FNone
-    else if 28 <? D - lost a then FPanic
+    else if 28 <? D - lost a then FNone
     else FSome (mkDec false (a / 10 ^ lost a) (D - lost a)).
 Proof.
   intros Ha HD. destruct (lost_range a Ha) as [Hsd Hq]. pose proof (ilog10_large a Ha) as Hl.
@@ -410,7 +395,7 @@ Proof.
   replace (ilog10 a <? 27) with false by (symmetry; apply Z.ltb_ge; lia).
   destruct (D <? lost a); [reflexivity|].
   replace (38 <? lost a) with false by (symmetry; apply Z.ltb_ge; lia).
-  unfold from_i128_with_scale, try_from_i128_with_scale, MAX_SCALE.
+  unfold try_from_i128_with_scale, MAX_SCALE.
   destruct (28 <? D - lost a); [reflexivity|].
   pose proof pow10_28_le_max.
   replace (MAX_REPR <? a / 10 ^ lost a) with false by (symmetry; apply Z.ltb_ge; lia).
@@ -484,9 +469,8 @@ Qed.
 
 (* what the core returns: exactly one of three outcomes *)
 Inductive core_out (k a D : Z) : fwd -> Prop :=
-| CoPanic : (k = 0 \/ k = 1) -> MAX_REPR < a -> 28 < D - lost a -> core_out k a D FPanic
 | CoNone : (k = 0 \/ k = 1) ->
-    (a <= MAX_REPR /\ 28 < D) \/ (MAX_REPR < a /\ D < lost a) -> core_out k a D FNone
+    (a <= MAX_REPR /\ 28 < D) \/ (MAX_REPR < a /\ (D < lost a \/ 28 < D - lost a)) -> core_out k a D FNone
 | CoSome m s : m = a / 10 ^ drop k a D -> 0 <= m < 2 ^ 96 -> 0 <= s <= 28 ->
     s <= kind_decimals k D -> (s = kind_decimals k D - drop k a D \/ (m = 0 /\ 47 < D /\ (k = 2 \/ k = 3))) ->
     0 <= drop k a D ->
@@ -523,7 +507,7 @@ Proof.
       destruct (D <? lost a) eqn:E1; [apply Z.ltb_lt in E1 | apply Z.ltb_ge in E1].
       + apply CoNone; [exact Hk01|]. right. lia.
       + destruct (28 <? D - lost a) eqn:E2; [apply Z.ltb_lt in E2 | apply Z.ltb_ge in E2].
-        * apply CoPanic; [exact Hk01|lia|lia].
+        * apply CoNone; [exact Hk01|]. right. lia.
         * pose proof pow10_28_le_max.
           apply CoSome; rewrite ?Hdrop, ?Hkd; try lia; try reflexivity. }
   destruct ((k =? 2) || (k =? 3)) eqn:E23.
@@ -579,10 +563,9 @@ Definition back_result (d : dec) (Dk T : Z) : res Z :=
   if (dm d =? 0) && (67 <=? Dk) then Err 1 else if in_s 128 T then Ok T else Err 1.
 
 Inductive rt_out (k num D : Z) : fwd * option (res Z) -> Prop :=
-| RtPanic : (k = 0 \/ k = 1) -> MAX_REPR < Z.abs num -> 28 < D - lost (Z.abs num) ->
-    rt_out k num D (FPanic, None)
 | RtNone : (k = 0 \/ k = 1) ->
-    (Z.abs num <= MAX_REPR /\ 28 < D) \/ (MAX_REPR < Z.abs num /\ D < lost (Z.abs num)) ->
+    (Z.abs num <= MAX_REPR /\ 28 < D) \/
+    (MAX_REPR < Z.abs num /\ (D < lost (Z.abs num) \/ 28 < D - lost (Z.abs num))) ->
     rt_out k num D (FNone, None)
 | RtSome d : valid d -> dsc d <= kind_decimals k D -> dneg d = (num <? 0) ->
     dm d = Z.abs num / 10 ^ drop k (Z.abs num) D ->
@@ -611,8 +594,7 @@ Proof.
   pose proof (kind_mag_range k num Hk Hr) as Hmag.
   pose proof (kind_decimals_range k D HD) as HDk.
   set (a := Z.abs num) in *. set (Dk := kind_decimals k D) in *.
-  destruct (core_spec k a D Hk Hmag HD) as [H1 H2 H3 | H1 H2 | m s Hm Hm96 Hs HsD Hms Hx].
-  - cbn [fwd_neg]. apply RtPanic; assumption.
+  destruct (core_spec k a D Hk Hmag HD) as [H1 H2 | m s Hm Hm96 Hs HsD Hms Hx].
   - cbn [fwd_neg]. apply RtNone; assumption.
   - cbn [fwd_neg].
     set (x := drop k a D) in *.
@@ -636,27 +618,7 @@ Proof.
         unfold back_result, target. cbn [dsc dm].
         replace (s <=? Dk) with true by (symmetry; apply Z.leb_le; lia).
         cbn [dsc] in HT. rewrite HT.
-        destruct ((m =? 0) && (67 <=? Dk)); [reflexivity|].
-        destruct (in_s 128 (trunc k num D)) eqn:Ein; [reflexivity|].
-        (* the formatting panic needs a scale >= 31: impossible here, the magnitude has 28 digits *)
-        replace (31 <=? dsc (rescale {| dneg := num <? 0; dm := m; dsc := s |} Dk)) with false; [reflexivity|].
-        symmetry. apply Z.leb_gt.
-        assert (Hbig : 2 ^ 127 <= a).
-        { pose proof (trunc_bounds_pre k num D Hx) as Hb. fold a in Hb.
-          unfold in_s in Ein. change (128 - 1) with 127 in Ein.
-          apply andb_false_elim in Ein. destruct Ein as [A | A]; [apply Z.leb_gt in A | apply Z.ltb_ge in A]; lia. }
-        assert (H127 : MAX_REPR < 2 ^ 127) by (vm_compute; reflexivity).
-        assert (H128 : 2 ^ 127 < 2 ^ 128) by (vm_compute; reflexivity).
-        assert (H64 : 2 ^ 64 < 2 ^ 127) by (vm_compute; reflexivity).
-        assert (H63 : 2 ^ 63 < 2 ^ 64) by (vm_compute; reflexivity).
-        destruct Hmag as [_ Hmag].
-        assert (Hxl : x = lost a /\ a < 2 ^ 128).
-        { subst x. unfold drop. destruct ((k =? 2) || (k =? 3)); [lia|].
-          replace (MAX_REPR <? a) with true by (symmetry; apply Z.ltb_lt; lia). split; [reflexivity | lia]. }
-        destruct Hxl as [Hxl Ha128].
-        pose proof (lost_quot_big a ltac:(lia)) as Hq. rewrite <- Hxl, <- Hm in Hq.
-        pose proof (rescale_scale_bound {| dneg := num <? 0; dm := m; dsc := s |} Dk Hval ltac:(cbn; lia) Hq) as Hb.
-        cbn [dsc] in Hb. lia. }
+        reflexivity. }
       unfold backward, decimal_to_value, decimal_to_amount, decimal_to_signed_value.
       destruct ((k =? 0) || (k =? 4)) eqn:E04.
       { rewrite Hrm. unfold back_result. destruct ((dm _ =? 0) && (67 <=? Dk)); [reflexivity|].
@@ -739,8 +701,7 @@ Proof.
   assert (Hdrop : drop k (Z.abs num) D = 0).
   { destruct (Z_le_gt_dec k 3); [apply drop_zero; lia|].
     rewrite drop_kind45 by lia. apply drop_zero; lia. }
-  destruct (roundtrip_spec k num D Hk Hr HD) as [H1 H2 H3 | H1 H2 | d Hv Hs Hn Hm Hsc Hex].
-  - lia.
+  destruct (roundtrip_spec k num D Hk Hr HD) as [H1 H2 | d Hv Hs Hn Hm Hsc Hex].
   - lia.
   - rewrite Hdrop in *. change (10 ^ 0) with 1 in Hm. rewrite Z.div_1_r in Hm.
     assert (Hsc' : dsc d = kind_decimals k D) by lia.
@@ -757,31 +718,12 @@ Proof.
     apply andb_true_intro; split; [apply Z.leb_le | apply Z.ltb_lt]; lia.
 Qed.
 
-(* the forward conversion panics exactly on the class-3 inputs *)
-Theorem forward_panic_iff k num D : 0 <= k <= 5 -> kind_in_range k num = true -> 0 <= D <= 255 ->
-  (forward k num D = FPanic <->
-   (k = 0 \/ k = 1) /\ MAX_REPR < Z.abs num /\ 28 < D - lost (Z.abs num)).
+(* the forward conversion never panics *)
+Theorem forward_never_panics k num D : 0 <= k <= 5 -> kind_in_range k num = true -> 0 <= D <= 255 ->
+  forward k num D <> FPanic.
 Proof.
-  intros Hk Hr HD.
-  pose proof (roundtrip_spec k num D Hk Hr HD) as H. unfold roundtrip in H.
-  pose proof (kind_mag_range k num Hk Hr) as [Ha0 Hmag].
-  split.
-  - intros E. rewrite E in H. inversion H. auto.
-  - intros [Hk01 [Ha HD']].
-    assert (Ha' : MAX_REPR < Z.abs num < 2 ^ 128).
-    { replace ((k =? 2) || (k =? 3)) with false in Hmag
-        by (symmetry; apply orb_false_intro; apply Z.eqb_neq; lia).
-      assert (2 ^ 127 < 2 ^ 128) by (vm_compute; reflexivity). lia. }
-    destruct (lost_range _ Ha') as [Hsd Hq].
-    assert (Hkd : kind_decimals k D = D).
-    { unfold kind_decimals. replace (k =? 4) with false by (symmetry; apply Z.eqb_neq; lia).
-      replace (k =? 5) with false by (symmetry; apply Z.eqb_neq; lia). reflexivity. }
-    assert (Hdrop : drop k (Z.abs num) D = lost (Z.abs num)).
-    { unfold drop. replace ((k =? 2) || (k =? 3)) with false
-        by (symmetry; apply orb_false_intro; apply Z.eqb_neq; lia).
-      replace (MAX_REPR <? Z.abs num) with true by (symmetry; apply Z.ltb_lt; lia). reflexivity. }
-    inversion H as [A B C E | A B E | d Hv Hs Hn Hm Hsc Hex E]; [reflexivity | lia |].
-    exfalso. rewrite Hkd, Hdrop in *. destruct Hv as [_ Hs28]. destruct Hsc as [Hsc | [Hz [_ Hk23]]]; lia.
+  intros Hk Hr HD E.
+  pose proof (roundtrip_spec k num D Hk Hr HD) as H. unfold roundtrip in H. rewrite E in H. inversion H.
 Qed.
 
 (* nothing is scaled or truncated unless digits are dropped, and digits are dropped only
@@ -794,7 +736,7 @@ Theorem forward_exact_iff k num D d : 0 <= k <= 5 -> kind_in_range k num = true 
 Proof.
   intros Hk Hr HD E.
   pose proof (roundtrip_spec k num D Hk Hr HD) as H. unfold roundtrip in H. rewrite E in H.
-  inversion H as [ | | d' Hv Hs Hn Hm Hsc Hex]. subst d'.
+  inversion H as [ | d' Hv Hs Hn Hm Hsc Hex]. subst d'.
   split; [exact Hv|].
   assert (Hx : 0 <= drop k (Z.abs num) D).
   { unfold drop. destruct ((k =? 2) || (k =? 3)).
@@ -878,7 +820,7 @@ Proof.
     apply orb_false_elim in E45. destruct E45 as [E4 E5]. apply Z.eqb_neq in E4, E5.
     destruct (Z_le_gt_dec 2 k); [lia|]. exfalso.
     pose proof (roundtrip_spec k num D Hk Hr HD) as H. unfold roundtrip in H. rewrite E in H.
-    inversion H as [ | | d' Hv Hs Hn Hm Hsc Hex]. subst d'.
+    inversion H as [ | d' Hv Hs Hn Hm Hsc Hex]. subst d'.
     assert (Hkd : kind_decimals k D = D).
     { unfold kind_decimals. replace (k =? 4) with false by (symmetry; apply Z.eqb_neq; lia).
       replace (k =? 5) with false by (symmetry; apply Z.eqb_neq; lia). reflexivity. }
@@ -895,7 +837,7 @@ Proof.
   - destruct (in_s 128 (trunc k num D)) eqn:Ein; [discriminate|]. inversion Hb. split; [reflexivity|]. right.
     assert (Hx : 0 <= drop k (Z.abs num) D).
     { pose proof (roundtrip_spec k num D Hk Hr HD) as H. unfold roundtrip in H. rewrite E in H.
-      inversion H as [ | | d' Hv Hs Hn Hm Hsc Hex]. subst d'.
+      inversion H as [ | d' Hv Hs Hn Hm Hsc Hex]. subst d'.
       destruct (Z_le_gt_dec 0 (drop k (Z.abs num) D)); [lia|]. exfalso.
       unfold drop in *. destruct ((k =? 2) || (k =? 3)).
       - destruct (28 <? D) eqn:E28; [apply Z.ltb_lt in E28|]; lia.
@@ -923,9 +865,6 @@ Definition class_truncated (k num D : Z) : Prop :=
 (* class 2: amount with more than 28 decimals whose low digits are non-zero *)
 Definition class_scaled (k num D : Z) : Prop :=
   amount_kind k /\ 28 < D /\ Z.abs num mod 10 ^ (D - 28) <> 0.
-(* class 3: panic *)
-Definition class_panic (k num D : Z) : Prop :=
-  (k = 0 \/ k = 1) /\ MAX_REPR < Z.abs num /\ 28 < D - lost (Z.abs num).
 
 Lemma drop_mod_zero_outside k num D : 0 <= k <= 5 ->
   ~ class_truncated k num D -> ~ class_scaled k num D ->
